@@ -3429,6 +3429,18 @@ bool ts_query__step_is_fallible(
     ts_assert((uint32_t)step_index + i < self->steps.size);
     next_step = array_get(&self->steps, step_index + i);
     i++;
+    // The end of an alternation branch: the step that follows this one is the step
+    // after the whole alternation, which may be an anchored sibling.
+    while (
+      next_step->is_dead_end &&
+      next_step->alternative_index != NONE &&
+      next_step->alternative_index > step_index &&
+      next_step->alternative_index < self->steps.size
+    ) {
+      i = next_step->alternative_index - step_index;
+      next_step = array_get(&self->steps, step_index + i);
+      i++;
+    }
   } while (next_step->is_pass_through);
 
   // When this step has child steps, every step of its subtree can fail, not only
